@@ -316,6 +316,7 @@ func writeReplayFile(verifDir string, o *Obligation, src, outcome string) string
 func WriteLedger(verifDir, prop string, obls []*Obligation) {
 	ok := map[string]bool{}
 	n := map[string]int{}
+	known := loadKnown(verifDir)
 	for _, o := range obls {
 		g := group(o.Name)
 		if _, seen := ok[g]; !seen {
@@ -326,7 +327,18 @@ func WriteLedger(verifDir, prop string, obls []*Obligation) {
 		}
 		n[g]++
 		if o.Status != "proved" {
-			ok[g] = false
+			// a failure that is a listed known finding does not unclaim the group: any other
+			// failure in the same group must still be reported
+			isKnown := false
+			detail := o.Name + " " + o.Note + " " + o.Src
+			for _, k := range known {
+				if k.Property == prop && strings.HasPrefix(k.Status, "open") && strings.HasPrefix(o.Name, k.Obligation) && (k.Match == "" || strings.Contains(detail, k.Match)) {
+					isKnown = true
+				}
+			}
+			if !isKnown {
+				ok[g] = false
+			}
 		}
 	}
 	l := &Ledger{Property: prop, Groups: map[string]int{}, Note: "claimed obligation groups: every obligation of the group was discharged on the unchanged tree when this file was written (govc ledger)"}
